@@ -206,6 +206,7 @@ type Interp struct {
 	curFacts    []Fact
 	SliceOff    map[ast.Expr]*Term // root only: absolute input offset of every slice expression taken on the input
 	SliceFacts  map[ast.Expr][]Fact
+	SliceHi     map[ast.Expr]*Term // root only: absolute end offset of slice expressions with an explicit upper bound
 	noSites     bool
 	breaks      []*brk
 	continues   []*brk
@@ -1051,6 +1052,16 @@ func (in *Interp) sliceExpr(st *State, x *ast.SliceExpr) Val {
 				root.SliceFacts = map[ast.Expr][]Fact{}
 			}
 			root.SliceFacts[x] = append([]Fact(nil), st.facts...)
+			if nv.Hi != nil && x.High != nil {
+				if root.SliceHi == nil {
+					root.SliceHi = map[ast.Expr]*Term{}
+				}
+				if old, ok := root.SliceHi[x]; !ok || old.Equal(nv.Hi) {
+					root.SliceHi[x] = nv.Hi
+				} else {
+					root.SliceHi[x] = Opq("varying end")
+				}
+			}
 			if old, ok := root.SliceOff[x]; !ok || old.Equal(nv.Off) {
 				root.SliceOff[x] = nv.Off
 			} else {
